@@ -271,11 +271,18 @@ fn child(mode: &str, spec: &Spec) -> ChildOut {
                     let ready = ready.clone();
                     std::thread::spawn(move || {
                         ready.fetch_add(1, Ordering::SeqCst);
-                        while !go.load(Ordering::Acquire) {
-                            std::thread::yield_now();
-                        }
-                        for _ in 0..spin {
-                            std::hint::spin_loop();
+                        if spin == u16::MAX {
+                            // tight gate: busy-wait without yielding, so that the threads' first creations fall together
+                            while !go.load(Ordering::Acquire) {
+                                std::hint::spin_loop();
+                            }
+                        } else {
+                            while !go.load(Ordering::Acquire) {
+                                std::thread::yield_now();
+                            }
+                            for _ in 0..spin {
+                                std::hint::spin_loop();
+                            }
                         }
                         script_with_tree(n, seed, ye, t0, None)
                     })
@@ -615,6 +622,10 @@ fn main() {
         .prop_map(|(n, seed, ye, count, short_n)| Spec { threads: vec![(n, seed, ye, 0)], churn: Some((count, short_n)) });
     ctx.prop_cfg("thread-churn", "c17-workload", ctx.n(3, 30), 4, churn, &runner);
     ctx.prop_cfg("long-workloads", "c17-workload", ctx.n(4, 40), 6, spec_strategy(8, 100_000, 200_000), &runner);
+    // first creations of a fresh process falling together: 8..16 threads behind a tight (non-yielding) gate, a few dozen creations
+    // each, many fresh processes (one-time initialisation of shared state - "who is the first thread?" - happens exactly here)
+    let together = (8usize..=16, 20u32..80, any::<u32>()).prop_map(|(k, n, seed)| Spec { threads: (0..k).map(|i| (n, seed.wrapping_add(i as u32), 0, u16::MAX)).collect(), churn: None });
+    ctx.prop_cfg("simultaneous-first-creations", "c17-workload", ctx.n(40, 600), 4, together, &runner);
     // one very long-lived thread (beyond 2^16, 2^20 and 2^24 node creations) with short-lived threads started and finished at
     // milestones of its life, against the same threads one after another: with per-thread generators every stream must be the same in
     // both executions (a generator that re-seeds itself from shared state after N draws, say, gives the long thread a continuation
